@@ -212,7 +212,7 @@ struct Rw<'a> {
     feats: &'a [String],
     counts: BTreeMap<String, u32>,
     err: Option<String>,
-    fresh: u32,
+    fresh_by_kind: BTreeMap<String, u32>,
     no: Vec<String>,
 }
 
@@ -225,9 +225,12 @@ impl<'a> Rw<'a> {
             self.err = Some(m);
         }
     }
+    /// generated names are numbered PER KIND (`__vx_i1`, `__vx_i2`, `__vx_f1`, ..) in order of creation within the function,
+    /// so that a change that introduces a name of another kind does not renumber the ones contracts refer to
     fn fresh(&mut self, base: &str) -> Ident {
-        self.fresh += 1;
-        Ident::new(&format!("__vx_{}{}", base, self.fresh), Span::call_site())
+        let n = self.fresh_by_kind.entry(base.to_string()).or_insert(0);
+        *n += 1;
+        Ident::new(&format!("__vx_{}{}", base, n), Span::call_site())
     }
     fn enabled(&self, r: &str) -> bool {
         !self.no.iter().any(|x| x == r)
@@ -1586,7 +1589,7 @@ fn do_fn(items: &[Item], req: &ItemReq, feats: &[String]) -> std::result::Result
         counts.insert("RE.replace_expr".into(), rp.expr.iter().map(|x| x.1).sum());
     }
 
-    let mut rw = Rw { setiter: req.setiter.clone(), wrote_lock: false, refpat: 0, retain: req.retain.clone().unwrap_or_else(|| "vec".into()), feats, counts, err: None, fresh: 0, no: req.no_rewrite.clone() };
+    let mut rw = Rw { setiter: req.setiter.clone(), wrote_lock: false, refpat: 0, retain: req.retain.clone().unwrap_or_else(|| "vec".into()), feats, counts, err: None, fresh_by_kind: BTreeMap::new(), no: req.no_rewrite.clone() };
     // signature: strip attrs on params
     for a in sig.inputs.iter_mut() {
         match a {
